@@ -294,3 +294,37 @@ def s_blake_ctor(n: int) -> bool:
     with NoTracing():
         tick('s_blake', None)
     return accepted == (1 <= n <= 64)
+
+
+# ----------------------------------------------------------------------------- CLI: every way of giving a password agrees
+CLI_PW = [b'secret', b'secret\n', b'secret\r\n', b' lead and trail ', b'', b'\xff\xfe', b'two\nlines\n', b'tab\t']
+
+
+def e_cli_password(k: int) -> bool:
+    """The password a key is created with through `add-key -N FILE` (or -n STRING) is byte for byte the password a later
+    command reads from the same file with `-P FILE` (or -p STRING): otherwise the new key can never unlock.
+    pre: 0 <= k < 8 * 3
+    post: _
+    """
+    ci, cmd = digits(k, [8, 3])
+    with NoTracing():
+        from replicat.utils import cli
+        with world.scratch('c17cli') as d:
+            f = d / 'pw.txt'
+            f.write_bytes(CLI_PW[ci])
+            parser = cli.make_main_parser(cli.initial_parser, cli.common_options_parser)
+            other = ['snapshot', 'list-snapshots', 'restore'][cmd]
+            tail = {'snapshot': [str(d)], 'list-snapshots': [], 'restore': [str(d)]}[other]
+            try:
+                a = parser.parse_args(['add-key', '-r', 'loc', '-P', str(f), '-N', str(f)])
+                b = parser.parse_args([other, '-r', 'loc', '-P', str(f)] + tail)
+            except SystemExit:
+                tick('e_cli_password', [ci, cmd, 'usage-error'])
+                return False
+            ok = a.new_password == b.password == a.password
+            if ok and b'\n' not in CLI_PW[ci] and b'\r' not in CLI_PW[ci] and CLI_PW[ci] and not CLI_PW[ci].startswith(b'\xff'):
+                s = os.fsdecode(CLI_PW[ci])
+                c = parser.parse_args(['add-key', '-r', 'loc', '-p', s, '-n', s])
+                ok = c.password == c.new_password
+            tick('e_cli_password', [ci, cmd])
+            return ok
